@@ -60,7 +60,9 @@ def _labels(ltype, k):
     if ltype == "int-arbitrary":
         return numpy.array([-7, 3, 12, 40, 41, 100, 250, 251, 999])[:k]
     if ltype == "str":
-        return numpy.array(["ant", "bee", "cat", "dog", "eel", "fox", "gnu", "hen", "ibis"])[:k]
+        # unequal lengths, and the first ones are the shortest: an output
+        # buffer sized after one label would truncate the others
+        return numpy.array(["no", "yes", "maybe", "x", "versicolor", "ab", "setosa", "q", "virginica"])[:k]
     if ltype == "float":
         return numpy.array([0.0, 1.0, 2.0, 5.0, 7.0, 8.0, 11.0, 12.0, 20.0])[:k]
     raise ValueError(ltype)
